@@ -24,6 +24,8 @@ const themisPrefix = "github.com/cossacklabs/themis/gothemis"
 // Program is the resolved program every rule works on.
 type Program struct {
 	stableG map[*ssa.Global]bool
+	fieldStoreFns map[fieldKey]map[*ssa.Function]bool
+	mayStoreC     map[fieldKey]map[*ssa.Function]bool
 	wipeSumm map[*ssa.Function]map[int]bool
 	stableF map[*ssa.Function]bool
 	RepoDir  string
